@@ -7,7 +7,7 @@ import warnings
 from hypothesis import strategies as st
 
 from .. import fakedul as fd, pdugen as g, refcmd, refpdu
-from ..common import Violation, HarnessError, hyp_search, parallel, lib_frame
+from ..common import Violation, HarnessError, hyp_search, parallel, lib_frame, quiet_warnings
 
 LEVEL = 'exploration'
 
@@ -254,7 +254,7 @@ def pick_probe(contexts, expected, salt):
 
 
 def run_enum(ctx, job):
-    warnings.simplefilter('ignore')
+    quiet_warnings()
     served_sets = [''.join(s) for k in range(4) for s in itertools.combinations('ABC', k)]
     sup_sets = [s for k in range(5) for s in itertools.combinations(range(4), k)]
     single = [(a, tl) for a in 'ABCZ' for tl in TS_LISTS]
@@ -320,7 +320,7 @@ def run_random(ctx, n):
 
 
 def shard_random(ctx, job):
-    warnings.simplefilter('ignore')
+    quiet_warnings()
     run_random(ctx, job['n'])
 
 
@@ -334,7 +334,7 @@ def cleanup():
 
 
 def run(ctx):
-    warnings.simplefilter('ignore')
+    quiet_warnings()
     ctx.rule = ('exhaustive: 8 served-class subsets (the entity optionally being a service USER of all other, or of all, classes; role-selection items for the proposed classes in half of the requests) x 16 supported-syntax subsets x all requests with <=1 (quick) / '
                 '<=2 (thorough) contexts over {3 served candidates, 1 never-served} x all 40 ordered lists of 1-3 '
                 'syntaxes from 4; entities serving 139 / 200 classes with classes from every part of the list proposed; Hypothesis: 0-8 contexts with arbitrary odd ids, generated AE titles, application '
@@ -357,7 +357,7 @@ def run(ctx):
 
 
 def replay(case):
-    warnings.simplefilter('ignore')
+    quiet_warnings()
     if 'many_classes' in case:
         from ..common import Ctx
         sub = Ctx('C09', 'quick', 1)
